@@ -235,6 +235,10 @@ class InternalCompiler(Compiler):
 
         # 2. For every arg,
         for e in expr.args:
+            # The accumulator holds a partial sum: it is not the value of any
+            # sub-expression compiled into it so far
+            self.expqmap.remove([d])
+
             # 2.1 If it's a symbol, and it's the computed dest, skip
             if isinstance(e, Symbol) and qc[e] == d:
                 continue
